@@ -267,7 +267,10 @@ pub fn process(
         Operation::Rjmp | Operation::Rcall => {
             let k = op_args[0].get_expr()?;
             let k = k.run(constants)?;
-            let rel = k - (current_address as i64 + 1);
+            // a target at the far end of the i64 range must be "out of range", not an overflow
+            let rel = k
+                .checked_sub(current_address as i64 + 1)
+                .unwrap_or(i64::MIN);
             if rel < -2048 || rel > 2047 {
                 bail!("Relative address out of range (-2048 <= k <= 2047)");
             }
@@ -301,7 +304,9 @@ pub fn process(
 
             let k = op_args[index].get_expr()?;
             let k = k.run(constants)?;
-            let rel = k - (current_address as i64 + 1);
+            let rel = k
+                .checked_sub(current_address as i64 + 1)
+                .unwrap_or(i64::MIN);
             if rel < -64 || rel > 63 {
                 bail!("Relative address out of range (-64 <= k <= 63)");
             }
